@@ -28,7 +28,7 @@ EOM_LOOP = ('__CPROVER_assigns(oldValue, newValue, IT.next_, Q.head_, G.lin_old,
             '__CPROVER_loop_invariant(G.lin_count == 0)')
 
 SPEC = dict(
-    properties=['C06', 'C15'],  # C14 is added back when the epoll group (schedule_remote) is enabled
+    properties=['C06', 'C14', 'C15'],
     ctx=ctx,
     extracts={
         'ctor_default': dict(file=AQ, kind='expr', sig=r'atomic_intrusive_queue\(\) noexcept : head_\(([^)]*)\) \{\}'),
